@@ -57,6 +57,7 @@ type ViewSpec struct {
 	MUnit  string   `json:"mu,omitempty"`
 	Agg    int      `json:"agg,omitempty"` // 0 nil, 1 default, 2 drop, 3 sum, 4 last value, 5 histogram, 6 exponential histogram
 	Filter bool     `json:"flt,omitempty"`
+	Deny   bool     `json:"deny,omitempty"` // Keys is a deny-list (NewDenyKeysFilter) instead of an allow-list
 	Keys   []string `json:"keys,omitempty"`
 }
 
@@ -69,6 +70,9 @@ type InstSpec struct {
 	SName string `json:"sn,omitempty"` // instrumentation scope of the meter that creates it
 	SVer  string `json:"sv,omitempty"`
 	SURL  string `json:"su,omitempty"`
+	OwnCB  bool  `json:"cb,omitempty"`  // observable: observations are made by a callback given at creation (else by the meter's RegisterCallback)
+	Dup    bool  `json:"dup,omitempty"` // created twice; measurements alternate between the two handles
+	Bounds int   `json:"bnd,omitempty"` // histogram: 1 = WithExplicitBucketBoundaries(1, 10), 2 = invalid boundaries (5, 1)
 }
 
 type Event struct {
@@ -88,6 +92,10 @@ type Scenario struct {
 	Pool   [][]KV     `json:"pool"`
 	Events []Event    `json:"events"`
 	Reuse  bool       `json:"reuse,omitempty"` // reuse one ResourceMetrics across collections
+	R2       bool   `json:"r2,omitempty"`     // a second ManualReader (pipeline) with temporality mask TMask2
+	TMask2   uint64 `json:"tmask2,omitempty"`
+	EnvAfter string `json:"envafter,omitempty"` // value the environment variable is changed to after the instruments exist
+	Unreg    int    `json:"unreg,omitempty"`    // the registered callbacks are unregistered before this collection (1-based)
 	Note   string     `json:"note,omitempty"`
 }
 
@@ -106,6 +114,7 @@ type MetricObs struct {
 
 type Result struct {
 	Obs   [][]MetricObs `json:"obs"`
+	Obs2  [][]MetricObs `json:"obs2,omitempty"` // what the second reader collected
 	Pool  [][]KV        `json:"pool"` // canonical form of the scenario's attribute sets
 	Panic string        `json:"panic,omitempty"`
 	Odd   string        `json:"odd,omitempty"` // something the canonicaliser cannot express (inexact float, unknown data type)
@@ -162,6 +171,10 @@ func aggregationOf(n int) sdkmetric.Aggregation {
 		return sdkmetric.AggregationExplicitBucketHistogram{Boundaries: []float64{0, 5, 10, 25, 50, 100}}
 	case 6:
 		return sdkmetric.AggregationBase2ExponentialHistogram{MaxSize: 160, MaxScale: 20}
+	case 7:
+		return sdkmetric.AggregationExplicitBucketHistogram{Boundaries: []float64{5, 1}} // rejected by NewView: not used
+	case 8:
+		return sdkmetric.AggregationBase2ExponentialHistogram{MaxSize: 160, MaxScale: 21} // rejected by NewView: not used
 	}
 	return nil
 }
@@ -185,18 +198,108 @@ func mkval(v int64, nf int) mval {
 	return mval{v, float64(v)}
 }
 
-type recorder interface {
-	record(ctx context.Context, v mval, s attribute.Set)
-}
-
-type recFn func(ctx context.Context, v mval, s attribute.Set)
-
-func (f recFn) record(ctx context.Context, v mval, s attribute.Set) { f(ctx, v, s) }
-
 type staged struct {
 	inst int
 	v    int64
 	set  attribute.Set
+	mode int
+}
+
+const limitEnv = "OTEL_GO_X_CARDINALITY_LIMIT"
+
+func setLimitEnv(v string) {
+	if v == "" {
+		os.Unsetenv(limitEnv)
+	} else {
+		os.Setenv(limitEnv, v)
+	}
+}
+
+// attribute entry points: WithAttributeSet, WithAttributes, or no option at all for the empty set
+func attrMode(evIdx int, s attribute.Set) int {
+	m := evIdx % 3
+	if m == 2 && s.Len() > 0 {
+		m = 1
+	}
+	return m
+}
+
+func addOpts(mode int, s attribute.Set) []metric.AddOption {
+	switch mode {
+	case 0:
+		return []metric.AddOption{metric.WithAttributeSet(s)}
+	case 1:
+		return []metric.AddOption{metric.WithAttributes(s.ToSlice()...)}
+	}
+	return nil
+}
+
+func recOpts(mode int, s attribute.Set) []metric.RecordOption {
+	switch mode {
+	case 0:
+		return []metric.RecordOption{metric.WithAttributeSet(s)}
+	case 1:
+		return []metric.RecordOption{metric.WithAttributes(s.ToSlice()...)}
+	}
+	return nil
+}
+
+func obsOpts(mode int, s attribute.Set) []metric.ObserveOption {
+	switch mode {
+	case 0:
+		return []metric.ObserveOption{metric.WithAttributeSet(s)}
+	case 1:
+		return []metric.ObserveOption{metric.WithAttributes(s.ToSlice()...)}
+	}
+	return nil
+}
+
+type syncRec func(ctx context.Context, v mval, mode int, s attribute.Set)
+
+// makeSync creates (or, on a repeated call, looks up) a synchronous instrument and returns how to record on it.
+func makeSync(m metric.Meter, is InstSpec) syncRec {
+	d, u := metric.WithDescription(is.Desc), metric.WithUnit(is.Unit)
+	switch {
+	case is.Kind == 1 && !is.Float:
+		c, _ := m.Int64Counter(is.Name, d, u)
+		return func(ctx context.Context, v mval, mode int, s attribute.Set) { c.Add(ctx, v.i, addOpts(mode, s)...) }
+	case is.Kind == 1:
+		c, _ := m.Float64Counter(is.Name, d, u)
+		return func(ctx context.Context, v mval, mode int, s attribute.Set) { c.Add(ctx, v.f, addOpts(mode, s)...) }
+	case is.Kind == 2 && !is.Float:
+		c, _ := m.Int64UpDownCounter(is.Name, d, u)
+		return func(ctx context.Context, v mval, mode int, s attribute.Set) { c.Add(ctx, v.i, addOpts(mode, s)...) }
+	case is.Kind == 2:
+		c, _ := m.Float64UpDownCounter(is.Name, d, u)
+		return func(ctx context.Context, v mval, mode int, s attribute.Set) { c.Add(ctx, v.f, addOpts(mode, s)...) }
+	case is.Kind == 3 && !is.Float:
+		ho := []metric.Int64HistogramOption{d, u}
+		switch is.Bounds {
+		case 1:
+			ho = append(ho, metric.WithExplicitBucketBoundaries(1, 10))
+		case 2:
+			ho = append(ho, metric.WithExplicitBucketBoundaries(5, 1)) // not sorted: ignored with an error
+		}
+		c, _ := m.Int64Histogram(is.Name, ho...)
+		return func(ctx context.Context, v mval, mode int, s attribute.Set) { c.Record(ctx, v.i, recOpts(mode, s)...) }
+	case is.Kind == 3:
+		ho := []metric.Float64HistogramOption{d, u}
+		switch is.Bounds {
+		case 1:
+			ho = append(ho, metric.WithExplicitBucketBoundaries(1, 10))
+		case 2:
+			ho = append(ho, metric.WithExplicitBucketBoundaries(5, 1))
+		}
+		c, _ := m.Float64Histogram(is.Name, ho...)
+		return func(ctx context.Context, v mval, mode int, s attribute.Set) { c.Record(ctx, v.f, recOpts(mode, s)...) }
+	case is.Kind == 7 && !is.Float:
+		c, _ := m.Int64Gauge(is.Name, d, u)
+		return func(ctx context.Context, v mval, mode int, s attribute.Set) { c.Record(ctx, v.i, recOpts(mode, s)...) }
+	case is.Kind == 7:
+		c, _ := m.Float64Gauge(is.Name, d, u)
+		return func(ctx context.Context, v mval, mode int, s attribute.Set) { c.Record(ctx, v.f, recOpts(mode, s)...) }
+	}
+	panic("harness: bad synchronous instrument kind")
 }
 
 func runScenario(sc Scenario) (res Result) {
@@ -206,12 +309,19 @@ func runScenario(sc Scenario) (res Result) {
 		}
 	}()
 	ctx := context.Background()
-	reader := sdkmetric.NewManualReader(sdkmetric.WithTemporalitySelector(func(k sdkmetric.InstrumentKind) metricdata.Temporality {
-		if sc.TMask>>uint(k)&1 == 1 {
-			return metricdata.DeltaTemporality
-		}
-		return metricdata.CumulativeTemporality
-	}))
+	setLimitEnv(sc.Env) // read when an aggregator is created, not at process start
+	mkReader := func(mask uint64) *sdkmetric.ManualReader {
+		return sdkmetric.NewManualReader(sdkmetric.WithTemporalitySelector(func(k sdkmetric.InstrumentKind) metricdata.Temporality {
+			if mask>>uint(k)&1 == 1 {
+				return metricdata.DeltaTemporality
+			}
+			return metricdata.CumulativeTemporality
+		}))
+	}
+	readers := []*sdkmetric.ManualReader{mkReader(sc.TMask)}
+	if sc.R2 {
+		readers = append(readers, mkReader(sc.TMask2)) // a second pipeline: every measurement reaches both, once each
+	}
 	var views []sdkmetric.View
 	for _, v := range sc.Views {
 		st := sdkmetric.Stream{Name: v.MName, Description: v.MDesc, Unit: v.MUnit, Aggregation: aggregationOf(v.Agg)}
@@ -220,12 +330,20 @@ func runScenario(sc Scenario) (res Result) {
 			for i, k := range v.Keys {
 				keys[i] = attribute.Key(k)
 			}
-			st.AttributeFilter = attribute.NewAllowKeysFilter(keys...)
+			if v.Deny {
+				st.AttributeFilter = attribute.NewDenyKeysFilter(keys...)
+			} else {
+				st.AttributeFilter = attribute.NewAllowKeysFilter(keys...)
+			}
 		}
 		views = append(views, sdkmetric.NewView(sdkmetric.Instrument{Name: v.CName, Description: v.CDesc, Kind: sdkmetric.InstrumentKind(v.CKind), Unit: v.CUnit,
 			Scope: instrumentation.Scope{Name: v.CSName, Version: v.CSVer, SchemaURL: v.CSURL}}, st))
 	}
-	mp := sdkmetric.NewMeterProvider(sdkmetric.WithReader(reader), sdkmetric.WithView(views...))
+	opts := []sdkmetric.Option{sdkmetric.WithView(views...)}
+	for _, r := range readers {
+		opts = append(opts, sdkmetric.WithReader(r))
+	}
+	mp := sdkmetric.NewMeterProvider(opts...)
 	defer mp.Shutdown(ctx)
 	// one meter per instrumentation scope used by the scenario
 	type scopeKey struct{ n, v, u string }
@@ -253,58 +371,84 @@ func runScenario(sc Scenario) (res Result) {
 	}
 
 	// instruments; creation errors (incompatible aggregation in a view) are part of the scenario
-	recs := make([]recorder, len(sc.Insts))
+	recs := make([][]syncRec, len(sc.Insts)) // one handle, or two for an instrument created twice
 	obsI := map[int]metric.Int64Observable{}
 	obsF := map[int]metric.Float64Observable{}
 	observables := map[scopeKey][]metric.Observable{}
+	var pending []staged
 	for idx, is := range sc.Insts {
-		d, u := is.Desc, is.Unit
+		idx, is := idx, is
 		m, mk := meterOf(is)
-		switch {
-		case is.Kind == 1 && !is.Float:
-			c, _ := m.Int64Counter(is.Name, metric.WithDescription(d), metric.WithUnit(u))
-			recs[idx] = recFn(func(ctx context.Context, v mval, s attribute.Set) { c.Add(ctx, v.i, metric.WithAttributeSet(s)) })
-		case is.Kind == 1:
-			c, _ := m.Float64Counter(is.Name, metric.WithDescription(d), metric.WithUnit(u))
-			recs[idx] = recFn(func(ctx context.Context, v mval, s attribute.Set) { c.Add(ctx, v.f, metric.WithAttributeSet(s)) })
-		case is.Kind == 2 && !is.Float:
-			c, _ := m.Int64UpDownCounter(is.Name, metric.WithDescription(d), metric.WithUnit(u))
-			recs[idx] = recFn(func(ctx context.Context, v mval, s attribute.Set) { c.Add(ctx, v.i, metric.WithAttributeSet(s)) })
-		case is.Kind == 2:
-			c, _ := m.Float64UpDownCounter(is.Name, metric.WithDescription(d), metric.WithUnit(u))
-			recs[idx] = recFn(func(ctx context.Context, v mval, s attribute.Set) { c.Add(ctx, v.f, metric.WithAttributeSet(s)) })
-		case is.Kind == 3 && !is.Float:
-			c, _ := m.Int64Histogram(is.Name, metric.WithDescription(d), metric.WithUnit(u))
-			recs[idx] = recFn(func(ctx context.Context, v mval, s attribute.Set) { c.Record(ctx, v.i, metric.WithAttributeSet(s)) })
-		case is.Kind == 3:
-			c, _ := m.Float64Histogram(is.Name, metric.WithDescription(d), metric.WithUnit(u))
-			recs[idx] = recFn(func(ctx context.Context, v mval, s attribute.Set) { c.Record(ctx, v.f, metric.WithAttributeSet(s)) })
-		case is.Kind == 7 && !is.Float:
-			c, _ := m.Int64Gauge(is.Name, metric.WithDescription(d), metric.WithUnit(u))
-			recs[idx] = recFn(func(ctx context.Context, v mval, s attribute.Set) { c.Record(ctx, v.i, metric.WithAttributeSet(s)) })
-		case is.Kind == 7:
-			c, _ := m.Float64Gauge(is.Name, metric.WithDescription(d), metric.WithUnit(u))
-			recs[idx] = recFn(func(ctx context.Context, v mval, s attribute.Set) { c.Record(ctx, v.f, metric.WithAttributeSet(s)) })
-		case is.Kind == 4 && !is.Float:
-			o, _ := m.Int64ObservableCounter(is.Name, metric.WithDescription(d), metric.WithUnit(u))
-			obsI[idx] = o
-		case is.Kind == 4:
-			o, _ := m.Float64ObservableCounter(is.Name, metric.WithDescription(d), metric.WithUnit(u))
-			obsF[idx] = o
-		case is.Kind == 5 && !is.Float:
-			o, _ := m.Int64ObservableUpDownCounter(is.Name, metric.WithDescription(d), metric.WithUnit(u))
-			obsI[idx] = o
-		case is.Kind == 5:
-			o, _ := m.Float64ObservableUpDownCounter(is.Name, metric.WithDescription(d), metric.WithUnit(u))
-			obsF[idx] = o
-		case is.Kind == 6 && !is.Float:
-			o, _ := m.Int64ObservableGauge(is.Name, metric.WithDescription(d), metric.WithUnit(u))
-			obsI[idx] = o
-		case is.Kind == 6:
-			o, _ := m.Float64ObservableGauge(is.Name, metric.WithDescription(d), metric.WithUnit(u))
-			obsF[idx] = o
-		default:
-			panic("harness: bad instrument kind")
+		d, u := metric.WithDescription(is.Desc), metric.WithUnit(is.Unit)
+		if is.Kind <= 3 || is.Kind == 7 {
+			recs[idx] = []syncRec{makeSync(m, is)}
+			if is.Dup {
+				recs[idx] = append(recs[idx], makeSync(m, is)) // same identity: the meter hands out the same instrument
+			}
+			continue
+		}
+		// observable instruments: either their own creation-time callback or the meter's registered callback
+		ownI := func(_ context.Context, o metric.Int64Observer) error {
+			for _, p := range pending {
+				if p.inst == idx {
+					o.Observe(p.v, obsOpts(p.mode, p.set)...)
+				}
+			}
+			return nil
+		}
+		ownF := func(_ context.Context, o metric.Float64Observer) error {
+			for _, p := range pending {
+				if p.inst == idx {
+					o.Observe(float64(p.v), obsOpts(p.mode, p.set)...)
+				}
+			}
+			return nil
+		}
+		for rep := 0; rep < 1 || (is.Dup && rep < 2); rep++ {
+			withCB := is.OwnCB && rep == 0
+			switch {
+			case is.Kind == 4 && !is.Float:
+				o := []metric.Int64ObservableCounterOption{d, u}
+				if withCB {
+					o = append(o, metric.WithInt64Callback(ownI))
+				}
+				obsI[idx], _ = m.Int64ObservableCounter(is.Name, o...)
+			case is.Kind == 4:
+				o := []metric.Float64ObservableCounterOption{d, u}
+				if withCB {
+					o = append(o, metric.WithFloat64Callback(ownF))
+				}
+				obsF[idx], _ = m.Float64ObservableCounter(is.Name, o...)
+			case is.Kind == 5 && !is.Float:
+				o := []metric.Int64ObservableUpDownCounterOption{d, u}
+				if withCB {
+					o = append(o, metric.WithInt64Callback(ownI))
+				}
+				obsI[idx], _ = m.Int64ObservableUpDownCounter(is.Name, o...)
+			case is.Kind == 5:
+				o := []metric.Float64ObservableUpDownCounterOption{d, u}
+				if withCB {
+					o = append(o, metric.WithFloat64Callback(ownF))
+				}
+				obsF[idx], _ = m.Float64ObservableUpDownCounter(is.Name, o...)
+			case is.Kind == 6 && !is.Float:
+				o := []metric.Int64ObservableGaugeOption{d, u}
+				if withCB {
+					o = append(o, metric.WithInt64Callback(ownI))
+				}
+				obsI[idx], _ = m.Int64ObservableGauge(is.Name, o...)
+			case is.Kind == 6:
+				o := []metric.Float64ObservableGaugeOption{d, u}
+				if withCB {
+					o = append(o, metric.WithFloat64Callback(ownF))
+				}
+				obsF[idx], _ = m.Float64ObservableGauge(is.Name, o...)
+			default:
+				panic("harness: bad instrument kind")
+			}
+		}
+		if is.OwnCB {
+			continue
 		}
 		if o, ok := obsI[idx]; ok && o != nil {
 			observables[mk] = append(observables[mk], o)
@@ -313,51 +457,77 @@ func runScenario(sc Scenario) (res Result) {
 			observables[mk] = append(observables[mk], o)
 		}
 	}
-	// One callback replays, in history order, the observations staged since the last collection.
-	// (aggregators are never shared between meters, so the order of the meters' callbacks does not matter)
-	var pending []staged
+	// One registered callback per meter replays, in history order, the observations staged since the last collection
+	// (aggregators are never shared between meters, so the order of the meters' callbacks does not matter).
+	var regs []metric.Registration
 	for _, mk := range meterOrder {
 		if len(observables[mk]) == 0 {
 			continue
 		}
 		mk := mk
-		_, err := meters[mk].RegisterCallback(func(_ context.Context, o metric.Observer) error {
+		reg, err := meters[mk].RegisterCallback(func(_ context.Context, o metric.Observer) error {
 			for _, p := range pending {
-				if is := sc.Insts[p.inst]; (scopeKey{is.SName, is.SVer, is.SURL}) != mk {
+				if is := sc.Insts[p.inst]; is.OwnCB || (scopeKey{is.SName, is.SVer, is.SURL}) != mk {
 					continue
 				}
 				if oi, ok := obsI[p.inst]; ok {
-					o.ObserveInt64(oi, p.v, metric.WithAttributeSet(p.set))
+					o.ObserveInt64(oi, p.v, obsOpts(p.mode, p.set)...)
 				} else if of, ok := obsF[p.inst]; ok {
-					o.ObserveFloat64(of, float64(p.v), metric.WithAttributeSet(p.set))
+					o.ObserveFloat64(of, float64(p.v), obsOpts(p.mode, p.set)...)
 				}
 			}
 			return nil
 		}, observables[mk]...)
 		if err != nil {
 			res.Odd = "RegisterCallback: " + err.Error()
+		} else {
+			regs = append(regs, reg)
 		}
 	}
+	if sc.EnvAfter != "" {
+		setLimitEnv(sc.EnvAfter) // the aggregators exist: a later change of the variable must not matter
+	}
 
-	shared := &metricdata.ResourceMetrics{}
-	for _, ev := range sc.Events {
+	shared := make([]*metricdata.ResourceMetrics, len(readers))
+	for i := range shared {
+		shared[i] = &metricdata.ResourceMetrics{}
+	}
+	res.Obs2 = nil
+	collects := 0
+	for evIdx, ev := range sc.Events {
 		if !ev.Collect {
-			if recs[ev.I] != nil {
-				recs[ev.I].record(ctx, mkval(ev.V, ev.NF), sets[ev.A])
+			mode := attrMode(evIdx, sets[ev.A])
+			if hs := recs[ev.I]; hs != nil {
+				hs[evIdx%len(hs)](ctx, mkval(ev.V, ev.NF), mode, sets[ev.A])
 			} else {
-				pending = append(pending, staged{ev.I, ev.V, sets[ev.A]})
+				pending = append(pending, staged{ev.I, ev.V, sets[ev.A], mode})
 			}
 			continue
 		}
-		rm := shared
-		if !sc.Reuse {
-			rm = &metricdata.ResourceMetrics{}
+		collects++
+		if sc.Unreg > 0 && collects == sc.Unreg {
+			for _, reg := range regs {
+				if err := reg.Unregister(); err != nil {
+					res.Odd = "Unregister: " + err.Error()
+				}
+				reg.Unregister() // a second Unregister is a no-op
+			}
 		}
-		if err := reader.Collect(ctx, rm); err != nil {
-			res.Odd = "Collect: " + err.Error()
+		for ri, reader := range readers {
+			rm := shared[ri]
+			if !sc.Reuse {
+				rm = &metricdata.ResourceMetrics{}
+			}
+			if err := reader.Collect(ctx, rm); err != nil {
+				res.Odd = "Collect: " + err.Error()
+			}
+			if ri == 0 {
+				res.Obs = append(res.Obs, extract(rm, &res))
+			} else {
+				res.Obs2 = append(res.Obs2, extract(rm, &res))
+			}
 		}
 		pending = pending[:0]
-		res.Obs = append(res.Obs, extract(rm, &res))
 	}
 	return res
 }
@@ -543,6 +713,7 @@ type ConcResult struct {
 // cheap pre-check (more than L points, totals or counts off), else the last one.  The pre-check only selects;
 // the verdict on the selected observation is Spec.order_free_b's.
 func runConc(cr ConcRound) (res ConcResult) {
+	setLimitEnv(cr.Env)
 	var total int64
 	var n uint64
 	for _, p := range cr.Prefill {
@@ -776,6 +947,18 @@ func genSet(r *vgen.Rand, serial int) []KV {
 	case 3:
 		return []KV{}
 	}
+	if r.Chance(1, 20) { // 11..14 attributes
+		var out []KV
+		for j := 0; j < 11+r.Intn(4); j++ {
+			t, v := genValue(r)
+			out = append(out, KV{fmt.Sprintf("w%02d", j), t, v})
+		}
+		out[r.Intn(len(out))].K = keyPool[r.Intn(4)]
+		if r.Bool() {
+			out = append(out, KV{"id", "i", strconv.Itoa(serial)})
+		}
+		return out
+	}
 	n := 1 + r.Intn(3)
 	var out []KV
 	for j := 0; j < n; j++ {
@@ -811,7 +994,9 @@ func genPool(r *vgen.Rand, n int) [][]KV {
 	return pool
 }
 
-var instNames = []string{"req", "lat", "Req", "q.len", "rx", "ab", "abc"}
+// "qxlen" is the near miss of "q.len" for patterns whose "." must stay literal; "9z" and "_x" are names the API reports as
+// invalid while still handing out a working instrument
+var instNames = []string{"req", "lat", "Req", "q.len", "qxlen", "rx", "ab", "abc", "9z", "_x"}
 
 type scopeSpec struct{ n, v, u string }
 
@@ -847,6 +1032,14 @@ func genInsts(r *vgen.Rand) []InstSpec {
 		if r.Chance(1, 5) {
 			is.Unit = vgen.Pick(r, []string{"ms", "By"})
 		}
+		is.OwnCB, is.Dup, is.Bounds = false, false, 0
+		if is.Kind >= 4 && is.Kind <= 6 {
+			is.OwnCB = r.Chance(1, 3)
+		}
+		is.Dup = r.Chance(1, 6)
+		if is.Kind == 3 && r.Chance(1, 3) {
+			is.Bounds = 1 + r.Intn(2)
+		}
 		key := fmt.Sprintf("%s|%s|%s|%d|%v|%s|%s|%s", is.Name, is.Desc, is.Unit, is.Kind, is.Float, is.SName, is.SVer, is.SURL)
 		if seen[key] {
 			continue
@@ -863,6 +1056,8 @@ func genKeys(r *vgen.Rand) []string {
 		return []string{} // allow nothing: every set collapses to the empty set
 	case 1:
 		return []string{"a", "b", "c", "k", "id", "otel.metric.overflow"}
+	case 4:
+		return []string{"w00", "w03", "w10", "w12", "a", "id"}
 	case 2:
 		return []string{"id"}
 	case 3:
@@ -888,7 +1083,7 @@ func genViews(r *vgen.Rand, insts []InstSpec) []ViewSpec {
 		v := ViewSpec{CName: target.Name}
 		switch r.Intn(12) {
 		case 0, 5:
-			v.CName = vgen.Pick(r, []string{"*", "r*", "?eq", "*e*", "a?", "ab*", "l?t", "R*", "??", "a*c", "?e?", "*q"})
+			v.CName = vgen.Pick(r, []string{"*", "r*", "?eq", "*e*", "a?", "ab*", "l?t", "R*", "??", "a*c", "?e?", "*q", "q.l*", "q.?en", "q?len", "*.len", "q.*"})
 		case 1:
 			v.CName = ""
 			v.CKind = target.Kind
@@ -945,10 +1140,13 @@ func genViews(r *vgen.Rand, insts []InstSpec) []ViewSpec {
 			v.Agg = 5
 		case 6:
 			v.Agg = 6
+		case 7:
+			v.Agg = vgen.Pick(r, []int{7, 8, 7, 8, 0}) // an aggregation NewView rejects
 		}
 		if r.Chance(1, 2) {
 			v.Filter = true
 			v.Keys = genKeys(r)
+			v.Deny = r.Chance(1, 3)
 		}
 		if strings.ContainsAny(v.CName, "*?") && r.Chance(3, 4) {
 			v.MName = "" // keep most wildcard views usable (a wildcard view with a name is refused)
@@ -958,10 +1156,12 @@ func genViews(r *vgen.Rand, insts []InstSpec) []ViewSpec {
 	return out
 }
 
+// Spellings of the environment variable and the limit strconv.Atoi makes of them (0 = no limit: unset, not a number, <= 0).
 var limits = []struct {
 	L   int
 	Env string
-}{{1, "1"}, {2, "2"}, {3, "3"}, {5, "5"}, {10, "10"}, {0, ""}, {0, "0"}, {0, "-4"}, {0, "many"}, {4, "4"}, {7, "7"}}
+}{{1, "1"}, {2, "2"}, {3, "3"}, {5, "5"}, {10, "10"}, {0, ""}, {0, "0"}, {0, "-4"}, {0, "many"}, {4, "4"}, {7, "7"},
+	{3, "+3"}, {7, "007"}, {0, " 2"}, {0, "2 "}, {0, "1e1"}, {0, "0x3"}, {0, "3.0"}, {2, "2"}, {3, "3"}, {1, "1"}}
 
 func genHistory(r *vgen.Rand, sc *Scenario, maxPerCycle int) {
 	n := len(sc.Pool)
@@ -1042,6 +1242,16 @@ func genScenario(r *vgen.Rand, thorough bool) Scenario {
 	lim := limits[r.Intn(len(limits))]
 	sc := Scenario{L: lim.L, Env: lim.Env, Reuse: r.Bool()}
 	sc.TMask = vgen.Pick(r, []uint64{0, 0xfe, 0xfe, 1<<1 | 1<<3 | 1<<4 | 1<<6 | 1<<7, r.U64() & 0xfe})
+	if r.Chance(1, 5) { // a second reader with its own temporality
+		sc.R2 = true
+		sc.TMask2 = vgen.Pick(r, []uint64{0, 0xfe, 1<<1 | 1<<3 | 1<<4 | 1<<6 | 1<<7, r.U64() & 0xfe})
+	}
+	if r.Chance(1, 6) { // the variable changes after the instruments exist
+		sc.EnvAfter = vgen.Pick(r, []string{"1", "2", "100", "0", "x"})
+	}
+	if r.Chance(1, 8) {
+		sc.Unreg = 1 + r.Intn(3)
+	}
 	sc.Insts = genInsts(r)
 	sc.Views = genViews(r, sc.Insts)
 	// number of distinct attribute sets: around the limit, or anything in 1..30
@@ -1149,6 +1359,28 @@ func corpus() []Scenario {
 				Note: "NaN and infinities, default views"})
 		}
 	}
+	// audit round: other spellings / entry points of the same operations
+	base := []Event{{I: 0, A: 0, V: 1}, {I: 1, A: 1, V: 2}, {I: 0, A: 2, V: 4}, {I: 1, A: 0, V: 8}, {I: 0, A: 3, V: 16}, {Collect: true},
+		{I: 1, A: 3, V: 32}, {I: 0, A: 1, V: 64}, {Collect: true}, {I: 1, A: 2, V: 3}, {Collect: true}}
+	pool4 := [][]KV{ab(0, 0), ab(0, 1), ab(1, 0), ab(1, 1)}
+	out = append(out,
+		Scenario{L: 3, Env: "+3", TMask: 0xfe, Insts: []InstSpec{{Name: "req", Kind: 1}, {Name: "lat", Kind: 3, Bounds: 2}}, Pool: pool4, Events: base,
+			EnvAfter: "1", Note: "limit spelled +3, changed to 1 after the instruments exist; invalid histogram boundaries on the instrument"},
+		Scenario{L: 7, Env: "007", TMask: 0, Insts: []InstSpec{{Name: "req", Kind: 1, Dup: true}, {Name: "lat", Kind: 3, Bounds: 1, Dup: true}}, Pool: pool4, Events: base,
+			Views: []ViewSpec{{CName: "req", Filter: true, Deny: true, Keys: []string{"b"}}, {CName: "lat", Filter: true, Deny: true, Keys: []string{}}},
+			Note: "deny-list filters; instruments created twice; instrument-level boundaries"},
+		Scenario{L: 0, Env: " 2", TMask: 0xfe, Insts: []InstSpec{{Name: "req", Kind: 1}, {Name: "lat", Kind: 3}}, Pool: pool4, Events: base,
+			Views: []ViewSpec{{CName: "req", Agg: 7}, {CName: "lat", Agg: 8, MName: "l2"}}, Note: "aggregations NewView rejects; limit with a leading blank is no limit"},
+		Scenario{L: 2, Env: "2", TMask: 0xfe, R2: true, TMask2: 0, Reuse: true, Insts: []InstSpec{{Name: "req", Kind: 1}, {Name: "oc", Kind: 4}}, Pool: pool4, Events: base,
+			Note: "two readers: delta and cumulative pipelines see every measurement once each"},
+		Scenario{L: 2, Env: "2", TMask: 0xfe, Insts: []InstSpec{{Name: "o1", Kind: 4}, {Name: "o2", Kind: 4, OwnCB: true}}, Pool: pool4, Events: base,
+			Views: []ViewSpec{{CName: "o1", MName: "z"}, {CName: "o2", MName: "Z"}},
+			Note: "two observable counters renamed into one stream: the creation-time callback observes before the registered one"},
+		Scenario{L: 3, Env: "3", TMask: 0, Unreg: 2, Insts: []InstSpec{{Name: "og", Kind: 6}, {Name: "oc", Kind: 4, OwnCB: true, Dup: true}}, Pool: pool4, Events: base,
+			Note: "registered callback unregistered (twice) before the second collection; creation-time callback keeps observing"},
+		Scenario{L: 2, Env: "2", TMask: 0xfe, Insts: []InstSpec{{Name: "q.len", Kind: 1}, {Name: "qxlen", Kind: 1}, {Name: "9z", Kind: 1}}, Pool: pool4,
+			Events: append(append([]Event{}, base...), Event{I: 2, A: 0, V: 5}, Event{I: 2, A: 1, V: 6}, Event{Collect: true}),
+			Views:  []ViewSpec{{CName: "q.l*", Agg: 2}, {CName: "q?len", MDesc: "D"}}, Note: "a literal dot in a wildcard pattern; an invalid instrument name"})
 	// scopes: the same instrument on two meters; views restricted to one scope must leave the other alone
 	two := []InstSpec{{Name: "req", Kind: 1, SName: "lib-a", SVer: "1.0"}, {Name: "req", Kind: 1, SName: "lib-b", SVer: "1.0"},
 		{Name: "req", Kind: 1, SName: "lib-a", SVer: "2.0", SURL: "https://s/1"}}
@@ -1207,12 +1439,46 @@ func obsValCoq(p PointObs) string {
 	return vgen.Z(p.Val)
 }
 
-func caseTerm(sc Scenario, res Result) string {
+// effectiveEvents is the history as the aggregators see it: observations reach them during the collection, first those of
+// instruments with their own creation-time callback (in creation order), then those replayed by the registered callbacks;
+// after the registered callbacks were unregistered their instruments' observations are no longer made.
+func effectiveEvents(sc Scenario) []Event {
+	var out, cycle []Event
+	collects := 0
+	for _, e := range sc.Events {
+		if !e.Collect {
+			cycle = append(cycle, e)
+			continue
+		}
+		collects++
+		unregistered := sc.Unreg > 0 && collects >= sc.Unreg
+		var own, reg []Event
+		for _, x := range cycle {
+			is := sc.Insts[x.I]
+			switch {
+			case is.Kind <= 3 || is.Kind == 7:
+				out = append(out, x)
+			case is.OwnCB:
+				own = append(own, x)
+			case !unregistered:
+				reg = append(reg, x)
+			}
+		}
+		sort.SliceStable(own, func(a, b int) bool { return own[a].I < own[b].I })
+		out = append(out, own...)
+		out = append(out, reg...)
+		out = append(out, e)
+		cycle = cycle[:0]
+	}
+	return out
+}
+
+func caseTerm(sc Scenario, res Result, tmask uint64, observed [][]MetricObs) string {
 	var views, insts, pool, evs, obs []string
 	for _, v := range sc.Views {
 		f := vgen.None
 		if v.Filter {
-			f = vgen.Some(strList(v.Keys))
+			f = vgen.Some(vgen.Pair(vgen.Bool(v.Deny), strList(v.Keys)))
 		}
 		views = append(views, vgen.App("mkview", vgen.HxS(v.CName), vgen.HxS(v.CDesc), vgen.N(uint64(v.CKind)), vgen.HxS(v.CUnit),
 			vgen.HxS(v.CSName), vgen.HxS(v.CSVer), vgen.HxS(v.CSURL), vgen.HxS(v.MName), vgen.HxS(v.MDesc), vgen.HxS(v.MUnit), vgen.N(uint64(v.Agg)), f))
@@ -1224,14 +1490,14 @@ func caseTerm(sc Scenario, res Result) string {
 	for _, s := range res.Pool {
 		pool = append(pool, setCoq(s))
 	}
-	for _, e := range sc.Events {
+	for _, e := range effectiveEvents(sc) {
 		if e.Collect {
 			evs = append(evs, "C")
 		} else {
 			evs = append(evs, vgen.App("M", vgen.N(uint64(e.I)), vgen.N(uint64(e.A)), valCoq(e.V, e.NF)))
 		}
 	}
-	for _, ms := range res.Obs {
+	for _, ms := range observed {
 		var mts []string
 		for _, m := range ms {
 			var pts []string
@@ -1242,7 +1508,7 @@ func caseTerm(sc Scenario, res Result) string {
 		}
 		obs = append(obs, vgen.List(mts))
 	}
-	return vgen.App("CScen", vgen.N(uint64(sc.L)), vgen.N(sc.TMask), vgen.List(views), vgen.List(insts),
+	return vgen.App("CScen", vgen.N(uint64(sc.L)), vgen.N(tmask), vgen.List(views), vgen.List(insts),
 		vgen.List(pool), vgen.List(evs), vgen.List(obs))
 }
 
@@ -1258,7 +1524,7 @@ func runBatch(env string, scs []Scenario) ([]Result, error) {
 
 func runJob(env string, job childJob) (*childOut, error) {
 	in, _ := json.Marshal(job)
-	ctx, cancel := context.WithTimeout(context.Background(), 120*time.Second)
+	ctx, cancel := context.WithTimeout(context.Background(), 400*time.Second)
 	defer cancel()
 	cmd := exec.CommandContext(ctx, os.Args[0], "-child")
 	cmd.Stdin = bytes.NewReader(in)
@@ -1275,6 +1541,11 @@ func runJob(env string, job childJob) (*childOut, error) {
 	var stderr bytes.Buffer
 	cmd.Stderr = &stderr
 	out, err := cmd.Output()
+	if ctx.Err() != nil {
+		// an overloaded machine, not an observation about the implementation: nothing is claimed (driver exit code 2)
+		fmt.Fprintln(os.Stderr, "C12 harness: a child process did not finish within 400 s; giving up without a verdict")
+		os.Exit(2)
+	}
 	if err != nil {
 		return nil, fmt.Errorf("child (limit %q) failed: %v: %s", env, err, tail(stderr.String(), 2000))
 	}
@@ -1312,7 +1583,7 @@ func main() {
 		"every aggregator kind and temporality; one collection judged by order-independent clauses (at most L sets, only offered sets or the overflow set, totals and counts conserved); non-trivial when exactly L sets were reported"
 
 	scs := corpus()
-	nGen := o.Count(750, 8000)
+	nGen := o.Count(650, 8000)
 	for i := 0; i < nGen; i++ {
 		scs = append(scs, genScenario(r.Fork(), o.Tier == "thorough"))
 	}
@@ -1322,22 +1593,15 @@ func main() {
 		env string
 		idx []int
 	}
-	byEnv := map[string][]int{}
-	var envs []string
-	for i, sc := range scs {
-		if _, ok := byEnv[sc.Env]; !ok {
-			envs = append(envs, sc.Env)
-		}
-		byEnv[sc.Env] = append(byEnv[sc.Env], i)
-	}
+	// A child inherits the value of its first scenario and sets the variable anew for every scenario it runs, so
+	// one process sees many different limits one after the other (the limit is read when an aggregator is created).
 	var batches []batch
-	for _, e := range envs {
-		idx := byEnv[e]
-		for len(idx) > 0 {
-			n := min(40, len(idx))
-			batches = append(batches, batch{e, idx[:n]})
-			idx = idx[n:]
+	for i := 0; i < len(scs); i += 40 {
+		var idx []int
+		for j := i; j < min(i+40, len(scs)); j++ {
+			idx = append(idx, j)
 		}
+		batches = append(batches, batch{scs[i].Env, idx})
 	}
 	results := make([]Result, len(scs))
 	failed := make([]error, len(batches))
@@ -1368,7 +1632,7 @@ func main() {
 		if err != nil {
 			// a crashed child is an observation about the implementation: find the scenario by running the batch one by one
 			for _, i := range batches[bi].idx {
-				res, e1 := runBatch(batches[bi].env, []Scenario{scs[i]})
+				res, e1 := runBatch(scs[i].Env, []Scenario{scs[i]})
 				if e1 != nil {
 					w.Violation("child process running the scenario died: "+e1.Error(), scs[i])
 					results[i] = Result{Panic: "child died"}
@@ -1458,7 +1722,11 @@ func main() {
 				w.Tally("view:filter")
 			}
 		}
-		w.Add(caseTerm(sc, res), sc, kind, overflowed || merged || len(sc.Views) > 0)
+		w.Add(caseTerm(sc, res, sc.TMask, res.Obs), sc, kind, overflowed || merged || len(sc.Views) > 0)
+		if sc.R2 {
+			w.Tally("second-reader")
+			w.Add(caseTerm(sc, res, sc.TMask2, res.Obs2), sc, kind+"-reader2", true)
+		}
 	}
 	// ---- concurrent recording under a limit ----
 	nConc := o.Count(420, 6000)
